@@ -140,6 +140,34 @@ try:
 except Exception as e:      # noqa
     print("aggregate part not run: %s: %s" % (type(e).__name__, e))
 
+# ---- sum rule: the integral of the spectrum without the frequency prefactor does not depend on the couplings -------------------------
+try:
+    def _raw_integral(J_):
+        ta_ = qr.TimeAxis(0.0, 1000, 1.0)
+        with qr.energy_units("1/cm"):
+            mols_ = []
+            for k_, (e_, d_) in enumerate(zip([12000.0, 12200.0, 12450.0], [[1.0, 0.2, 0.0], [0.3, 1.1, 0.2], [0.5, -0.4, 0.9]])):
+                m_ = qr.Molecule([0.0, e_])
+                m_.set_dipole(0, 1, d_)
+                m_.set_transition_environment((0, 1), qr.CorrelationFunction(ta_, dict(ftype="OverdampedBrownian", reorg=40.0, cortime=80.0,
+                                                                                      T=300.0, matsubara=30)))
+                mols_.append(m_)
+            ag_ = qr.Aggregate(mols_)
+            for (a_, b_), v_ in {(0, 1): J_, (1, 2): -0.6 * J_, (0, 2): 0.3 * J_}.items():
+                ag_.set_resonance_coupling(a_, b_, v_)
+        ag_.build()
+        ac_ = qr.AbsSpectrumCalculator(ta_, system=ag_)
+        with qr.energy_units("1/cm"):
+            ac_.bootstrap(rwa=12200.0)
+        sp_ = ac_.calculate(raw=True)
+        w_, d_ = numpy.array(sp_.axis.data), numpy.array(sp_.data)
+        return float(numpy.sum((d_[1:] + d_[:-1]) / 2 * numpy.diff(w_)))
+    ints_ = [_raw_integral(J_) for J_ in (0.0, 80.0, 250.0)]
+    if (max(ints_) - min(ints_)) > 1e-4 * abs(ints_[0]):
+        bad.append("sum rule: the integral of the raw spectrum changes with the couplings: %s" % (["%.8g" % x for x in ints_],))
+except Exception as e_:      # noqa
+    bad.append("sum-rule part raised %s: %s" % (type(e_).__name__, str(e_)[:120]))
+
 for b in bad[:10]:
     print("VIOLATED:", b)
 print("C11 oracle: %d violations" % len(bad))
